@@ -162,6 +162,34 @@ class Names:
             return out
         return self._memo(("exclusive", key), go)
 
+    def exclusive_subgenerators(self, key):
+        """private helpers that take the listener and that only generator `key` calls (a part of the generator moved into
+        a function of its own, loops and all): read as part of it"""
+        def go():
+            f = self.f
+            callers = {}
+            for k2, b2 in f.bodies.items():
+                if b2.crate.startswith("cozy_chess"):
+                    owner = k2.split("::{closure")[0]
+                    for bb_, t_ in b2.calls():
+                        cn = callee_name(t_)
+                        if cn:
+                            callers.setdefault(cn, set()).add(owner)
+            keep = {self.king_safe_on, self.can_castle, self.target_squares, self.roster, self.dispatch} | set(self.generators.values())
+            out = set()
+            work = [key]
+            while work:
+                k = work.pop()
+                for h in local_callees(f, k):
+                    if h in out or h in keep or not self._has_listener(h) or f.fns.get(h, {}).get("pub"):
+                        continue
+                    if not callers.get(h, set()) <= ({key} | out):
+                        continue
+                    out.add(h)
+                    work.append(h)
+            return out
+        return self._memo(("subgen", key), go)
+
     @property
     def slider_type_param(self):
         b = self.f.bodies[self.generators["Slider"]]
